@@ -122,6 +122,38 @@ def check_close_on_every_exit(check, an: Analysis, rule: str, receivers):
                                path=rules.path_lines(path), analysed=len(paths))
 
 
+def check_copy_iteration(check, an: Analysis, rule: str):
+    """loops that close or await children run over a copy of the list"""
+    COPIES = ('%s.copy()', 'list(%s)', '%s[:]', 'tuple(%s)')
+    for name, attr in (('_close_children', 'self._children'),
+                       ('_close_volatile', 'self._volatile_children'),
+                       ('_await_children', 'self._children')):
+        callee = an.callee(SCOPE, name)
+        verdict, n_iter, bad, closes = True, 0, None, 0
+        for path in an.paths(callee):
+            for index, event in enumerate(path.events):
+                if event.kind in ('iter-next', 'iter-end'):
+                    text = rules.value_text(path, index, event.node.iter)
+                    if '_children' not in text:
+                        continue
+                    n_iter += 1
+                    if text not in [c % attr for c in COPIES]:
+                        verdict = False
+                        bad = bad or (path, index)
+                elif event.kind in ('call', 'enter') and isinstance(event.node, ast.Call) \
+                        and isinstance(event.node.func, ast.Attribute) and \
+                        event.node.func.attr == '__close__':
+                    closes += 1
+        check.instance(rule, '%s:iterates-copy' % name, verdict and n_iter > 0,
+                       where_fn(callee.fn), 'the loop runs over a copy of `%s`: children '
+                       'remove themselves while being closed/awaited (%d iteration events)'
+                       % (attr, n_iter), path=rules.path_lines(*bad) if bad else None,
+                       analysed=n_iter)
+        if name != '_await_children':
+            check.instance(rule, '%s:closes-each' % name, closes > 0, where_fn(callee.fn),
+                           'each child of the list is closed')
+
+
 def run(check, an: Analysis):
     check.rule('P', 'every exit of Scope.__aexit__ passes _close_scope(); _close_scope '
                     'disables interrupts, closes children, then volatile children')
@@ -172,34 +204,7 @@ def run(check, an: Analysis):
                        'the only thing awaited is the completion of a child: %s'
                        % sorted(w or '?' for w in waits))
     # ---- M ------------------------------------------------------------------
-    COPIES = ('%s.copy()', 'list(%s)', '%s[:]', 'tuple(%s)')
-    for name, attr in (('_close_children', 'self._children'),
-                       ('_close_volatile', 'self._volatile_children'),
-                       ('_await_children', 'self._children')):
-        callee = an.callee(SCOPE, name)
-        verdict, n_iter, bad, closes = True, 0, None, 0
-        for path in an.paths(callee):
-            for index, event in enumerate(path.events):
-                if event.kind in ('iter-next', 'iter-end'):
-                    text = rules.value_text(path, index, event.node.iter)
-                    if '_children' not in text:
-                        continue
-                    n_iter += 1
-                    if text not in [c % attr for c in COPIES]:
-                        verdict = False
-                        bad = bad or (path, index)
-                elif event.kind in ('call', 'enter') and isinstance(event.node, ast.Call) \
-                        and isinstance(event.node.func, ast.Attribute) and \
-                        event.node.func.attr == '__close__':
-                    closes += 1
-        check.instance('M', '%s:iterates-copy' % name, verdict and n_iter > 0,
-                       where_fn(callee.fn), 'the loop runs over a copy of `%s`: children '
-                       'remove themselves while being closed/awaited (%d iteration events)'
-                       % (attr, n_iter), path=rules.path_lines(*bad) if bad else None,
-                       analysed=n_iter)
-        if name != '_await_children':
-            check.instance('M', '%s:closes-each' % name, closes > 0, where_fn(callee.fn),
-                           'each child of the list is closed')
+    check_copy_iteration(check, an, 'M')
     check.floor('M', 5)
     # ---- R ------------------------------------------------------------------
     do = an.callee(SCOPE, 'do')
